@@ -12,7 +12,7 @@ from symx import core
 from vf import machine as MC
 from vf.unit import eq, holds
 
-FAMILIES = ['isa_dp']
+FAMILIES = ['isa_dp', 'isa_ls']
 _loaded = set()
 
 
@@ -87,6 +87,11 @@ def mk_step(enc, arch=6, sec=True, virt=False, vmsa=False, mode=None, it='any', 
 
         m = MC.stepper(env, build, run)
         cl = []
+        if isinstance(m.escaped, NotImplementedError):
+            env.note('outcome', 'NotImplementedError')
+            return [holds('NotImplementedError only where the table expects an unimplemented feature',
+                          m.info['notimpl'])]
+        cl.append(holds('no NotImplementedError expected here', z3.Not(m.info['notimpl'])))
         if m.escaped is not None:
             ex = m.escaped
             env.note('outcome', 'escaped:' + type(ex).__name__)
